@@ -54,6 +54,9 @@ class VisitBase(FnSpec):
     records = True  # does the method record the node's value in recomputed_values?
     sem = None
     may_raise = False
+    # regime of these proofs: no operand is a PLACEHOLDER (the node is outside comprehension scope); the placeholder paths
+    # are exercised by the expression replay family only (bounded), and the guard lists them as unreached
+    expected_unreached = ("raise NotImplementedError", "PLACEHOLDER", "saw_placeholder = True", "continue")
 
     def __init__(self):
         self.methods = {"visit": self.visit_call}
